@@ -485,6 +485,9 @@ func (i *Interpreter) eval(expr ast.Expr, env *environment.Environment, isRepl b
 			if signal.Type == ControlFlowReturn {
 				return nil, signal // A return inside the body leaves the loop and the function
 			}
+			if utils.HadRuntimeError {
+				break // A runtime error stops the program: do not go round again
+			}
 		}
 		return nil, &ControlFlowSignal{Type: ControlFlowNone, LineNumber: 0}
 
@@ -518,6 +521,9 @@ func (i *Interpreter) eval(expr ast.Expr, env *environment.Environment, isRepl b
 				// Skip to the increment
 			} else if signal.Type != ControlFlowNone {
 				return nil, signal
+			}
+			if utils.HadRuntimeError {
+				break // A runtime error stops the program: do not go round again
 			}
 
 			// Execute the increment
